@@ -30,7 +30,8 @@ for d in sorted(glob.glob(os.path.join(VERIF, "seeded", "C*")), key=key):
     caught = sorted(caught, key=lambda c: (c != own, c))
     files = ", ".join(os.path.basename(f) for f in m.get("files", []))
     needs = " ".join(str(m.get("needs_to_manifest", "")).split())[:150].replace("|", "/")
-    rows.append("| %s | %s | %s | %s |" % (m["id"], files, needs, ", ".join(caught) or "**none**"))
+    none = "**none** (known residual: workload size)" if m.get("known_residual") else "**none**"
+    rows.append("| %s | %s | %s | %s |" % (m["id"], files, needs, ", ".join(caught) or none))
 block = "<!-- SEEDTABLE BEGIN (tools/seedtable.py) -->\n" + "\n".join(rows) + \
         "\n<!-- SEEDTABLE END -->"
 dp = os.path.join(VERIF, "DESIGN.md")
